@@ -368,9 +368,145 @@ fn run_twins(ctx: &mut Ctx, opts: &[&str], job: &mut u64) {
     }
 }
 
+/// THE LATER FRAME WINS: two frames of one aircraft that carry the same parameter with *related* values (the same
+/// flight level in 25 ft and in 100 ft coding, a callsign and its prefixes / suffixes / one-letter changes, a
+/// squawk and its digit permutations). After [a, b] the parameter must read what it reads after [b] alone - no
+/// reference decoder is involved, so the comparison also holds where the decoder has a known defect (D12).
+fn overwrite_cases() -> Vec<(String, Vec<u8>, Vec<u8>, &'static str)> {
+    use crate::frames;
+    let a = rowmodel::ADDR[0];
+    let hx = |f: crate::frames::Frame| f.hex().into_bytes();
+    let mut v = vec![];
+    let mut levels: Vec<i32> = (0..=12000).step_by(500).collect();
+    levels.extend([10000 + 100, 31000, 36000, 45100]);
+    for l in levels {
+        let Some(g) = crate::refmodel::fields::ac13_gillham(l) else { continue };
+        let coarse = [("DF4 Gillham", hx(frames::df4(a, g))), ("DF20 Gillham", hx(frames::df20(a, g, 0)))];
+        for dh in [-50i32, -25, 0, 25, 50, 75] {
+            let h = l + dh;
+            if h < -1000 {
+                continue;
+            }
+            let fine = [
+                ("TC11", hx(frames::df17(5, a, frames::me_airpos(11, 0, 0, frames::ac12_for_alt(h), 0, 0, 93006, 51380)))),
+                ("DF4", hx(frames::df4(a, frames::ac13_for_alt(h)))),
+                ("DF20", hx(frames::df20(a, frames::ac13_for_alt(h), 0))),
+            ];
+            for (fname, f) in &fine {
+                for (cname, c) in &coarse {
+                    v.push((format!("{fname} {h} ft > {cname} {l} ft"), f.clone(), c.clone(), "altitude"));
+                    v.push((format!("{cname} {l} ft > {fname} {h} ft"), c.clone(), f.clone(), "altitude"));
+                }
+            }
+        }
+    }
+    for shown in ["BAW224U", "EIN45F", "RYR9AB", "N123AB", "AAAAAAAA"] {
+        let mut related: Vec<String> = vec![];
+        for k in 1..shown.len() {
+            related.push(shown[..k].to_string());
+            related.push(shown[k..].to_string());
+        }
+        related.push(format!("{shown}X").chars().take(8).collect());
+        related.push(shown.replacen(&shown[..1], "Z", 1));
+        related.push(shown.to_lowercase().to_uppercase());
+        related.sort();
+        related.dedup();
+        let carriers = |cs: &str| -> Vec<(&'static str, Vec<u8>)> {
+            let c = frames::callsign_codes(cs);
+            vec![
+                ("TC4", hx(frames::df17(5, a, frames::me_ident(4, 3, c)))),
+                ("DF20 BDS 2,0", hx(frames::df20(a, frames::ac13_for_alt(7000), frames::mb_bds20(c)))),
+                ("DF21 BDS 2,0", hx(frames::df21(a, frames::id13_for_squawk(2101), frames::mb_bds20(c)))),
+            ]
+        };
+        for r in &related {
+            for (an, af) in carriers(shown) {
+                for (bn, bf) in carriers(r) {
+                    v.push((format!("{an} '{shown}' > {bn} '{r}'"), af.clone(), bf.clone(), "callsign"));
+                    v.push((format!("{bn} '{r}' > {an} '{shown}'"), bf.clone(), af.clone(), "callsign"));
+                }
+            }
+        }
+    }
+    for held in [7700u32, 7000, 1200, 4521, 1] {
+        let digits = format!("{held:04}");
+        let mut related: Vec<u32> = vec![0, held];
+        let d: Vec<char> = digits.chars().collect();
+        related.push(format!("{}{}{}{}", d[3], d[2], d[1], d[0]).parse().unwrap());
+        related.push(format!("{}{}{}{}", d[1], d[0], d[3], d[2]).parse().unwrap());
+        related.push(format!("00{}{}", d[0], d[1]).parse().unwrap());
+        related.push(format!("{}{}00", d[2], d[3]).parse().unwrap());
+        related.sort();
+        related.dedup();
+        for r in related {
+            let car = |q: u32| vec![("DF5", hx(frames::df5(a, frames::id13_for_squawk(q)))), ("DF21", hx(frames::df21(a, frames::id13_for_squawk(q), 0)))];
+            for (an, af) in car(held) {
+                for (bn, bf) in car(r) {
+                    v.push((format!("{an} {held:04} > {bn} {r:04}"), af.clone(), bf.clone(), "squawk"));
+                }
+            }
+        }
+    }
+    v
+}
+
+fn overwrite_field(rows: &[crate::snap::Snap], field: &str) -> String {
+    match rows.iter().find(|r| r.key == rowmodel::ADDR[0]) {
+        None => "no row".into(),
+        Some(r) => match field {
+            "altitude" => format!("{:?} '{}'", r.altitude, r.altitude_source),
+            "callsign" => format!("{:?}", r.ais),
+            _ => format!("{:?}", r.squawk),
+        },
+    }
+}
+
+/// (value after [pre, a, b], value after [pre, b])
+fn overwrite_case(cfg: &Cfg, a: &[u8], b: &[u8], field: &str) -> (String, String) {
+    let pre = crate::frames::df11(5, rowmodel::ADDR[0], 0).hex().into_bytes();
+    let run = |lines: Vec<Vec<u8>>| {
+        let t = crate::snap::new_table();
+        let _ = crate::run::run_file(cfg, &crate::run::join_lines(&lines), &t);
+        overwrite_field(&crate::snap::snapshot(&t), field)
+    };
+    (run(vec![pre.clone(), a.to_vec(), b.to_vec()]), run(vec![pre, b.to_vec()]))
+}
+
+fn run_overwrite(ctx: &mut Ctx, opts: &[&str], job: &mut u64) {
+    let cfg = Cfg::new(opts);
+    for (i, (name, a, b, field)) in overwrite_cases().into_iter().enumerate() {
+        if i % 64 == 0 {
+            *job += 1;
+        }
+        if !ctx.mine(*job) {
+            continue;
+        }
+        let (both, alone) = overwrite_case(&cfg, &a, &b, field);
+        ctx.eval();
+        ctx.count("later-frame-wins");
+        // a second frame in which the program finds no value on its own says nothing about who wins (whether it
+        // should have found one is C05's / C07's question; for Gillham codes see the known finding D12)
+        if alone.starts_with("None") {
+            ctx.count("later-frame-wins:second frame carries no value");
+            continue;
+        }
+        if both != alone {
+            ctx.violation(
+                &format!("C11/later-frame-wins/{field}/{}", cfg.label()),
+                &name,
+                || format!("[{name}]: the {field} reads {both} after both frames but {alone} after the second frame alone"),
+                || json!({"overwrite": {"a": String::from_utf8_lossy(&a), "b": String::from_utf8_lossy(&b), "field": field}, "cfg": cfg.opts}),
+            );
+        }
+    }
+}
+
 fn run(ctx: &mut Ctx) {
     squitterator::set_observer_coords_from_str(rowmodel::OBSERVER_STR);
     let mut rjob = 500_000u64;
+    for opts in configs() {
+        run_overwrite(ctx, &opts, &mut rjob);
+    }
     for opts in configs() {
         run_twins(ctx, &opts, &mut rjob);
     }
@@ -426,6 +562,16 @@ fn replay(ctx: &mut Ctx, case: &Value) {
         crate::run::say(&format!("{} line(s) of {:06X}, alone and with the same lines of the twin {twin:06X} ({}): {}", a_lines.len(), rowmodel::ADDR[0], if interleaved { "interleaved" } else { "first" }, d.clone().unwrap_or_else(|| "same row".into())));
         if let Some(d) = d {
             ctx.violation("C11/TWIN", "replay", || d, || case.clone());
+        }
+        return;
+    }
+    if let Some(r) = case.get("overwrite") {
+        let g = |k: &str| r.get(k).and_then(|x| x.as_str()).unwrap_or("").to_string();
+        let field = g("field");
+        let (both, alone) = overwrite_case(&cfg, g("a").as_bytes(), g("b").as_bytes(), &field);
+        crate::run::say(&format!("{} then {}: {field} reads {both}; {} alone: {alone}", g("a"), g("b"), g("b")));
+        if both != alone && !alone.starts_with("None") {
+            ctx.violation("C11/later-frame-wins", "replay", || "the later frame does not win".into(), || case.clone());
         }
         return;
     }
